@@ -129,6 +129,17 @@ impl RestorerJob {
         self.submit_descs.push(submit)
     }
 
+    /// The job is closed and every task of all its submits has a recorded final outcome
+    fn is_finished(&self) -> bool {
+        let n_tasks: u32 = self
+            .submit_descs
+            .iter()
+            .map(|s| s.description().task_desc.task_count())
+            .sum();
+        !self.is_open
+            && self.tasks.values().filter(|t| t.is_completed()).count() as u32 == n_tasks
+    }
+
     pub fn increase_crash_counters(&mut self, worker_id: WorkerId) {
         for task in self.tasks.values_mut() {
             match &task.state {
@@ -181,6 +192,12 @@ impl StateRestorer {
     ) -> crate::Result<(Vec<TaskSubmit>, Vec<Queue>)> {
         let mut jobs = Vec::new();
         for (job_id, job) in self.jobs {
+            if job.is_finished() {
+                // All tasks have a recorded outcome and the job is closed; only the
+                // JobCompleted record was not written before the server went down
+                log::debug!("Job {job_id} is finished, it is not restored");
+                continue;
+            }
             let mut new_jobs = job.restore_job(job_id, state, server_ref)?;
             jobs.append(&mut new_jobs);
         }
